@@ -24,7 +24,7 @@ def exec_consts(**kw):
     d = {"Types": "<- TypesExec", "Roots": "<- RootsExec", "MaxSel": "= 4", "MaxDepth": "= 3", "MaxFrags": "= 0",
          "MaxOps": "= 1", "OpTypes": '= {"query"}', "FieldAlpha": "<- AlphaBasic", "Aliases": '= {"", "z"}',
          "Conds": '= {""}', "DirOpts": "<- NoDirs", "ArgOpts": "<- ArgOptsNone", "VarTypes": "<- VarTypesStd",
-         "VarVals": "<- VarValsStd", "MaxOverlay": "= 1"}
+         "VarVals": "<- VarValsStd", "MaxOverlay": "= 1", "TRSets": "<- NoTR"}
     d.update(kw)
     return d
 
@@ -32,6 +32,7 @@ EXEC_INV = ["R1_Exec", "Emit"]
 # ---- C01 / C06: fault-free execution ---------------------------------------------------
 cfg("MC_exec_basic.cfg", exec_consts(), EXEC_INV)
 cfg("MC_exec_abstract.cfg", exec_consts(FieldAlpha="<- AlphaAbstract", Aliases='= {""}', Conds='= {"", "A", "B", "P", "C"}', MaxSel="= 4"), EXEC_INV)
+cfg("MC_exec_typeres.cfg", exec_consts(FieldAlpha="<- AlphaTypeRes", Aliases='= {""}', Conds='= {"", "A", "B"}', MaxSel="= 3", TRSets="<- AllTR"), EXEC_INV)
 cfg("MC_exec_lists.cfg", exec_consts(FieldAlpha="<- AlphaLists", Aliases='= {""}', MaxSel="= 3"), EXEC_INV)
 cfg("MC_exec_args.cfg", exec_consts(FieldAlpha="<- AlphaArgs", ArgOpts="<- ArgOptsStd", Aliases='= {"", "z"}', MaxSel="= 3", MaxOverlay="= 0"), EXEC_INV)
 cfg("MC_exec_frag.cfg", exec_consts(FieldAlpha="<- AlphaFrag", Aliases='= {""}', Conds='= {"T", "P", "A", "Query"}', MaxFrags="= 2", MaxSel="= 4", MaxOverlay="= 0"), EXEC_INV)
